@@ -253,53 +253,8 @@ def multi_case(rng):
     return c
 
 
-HIST_TYPES = ['range', 'list_str', 'tuple_str', 'np_int', 'np_str', 'pd_int', 'pd_str', 'period_qm', 'range0', 'list_dupin', 'np_dupin_nm', 'pd_dupin']
-
-
 def hist_case(rng):
-    """A history of public solver calls on one instance: solve_t / solve_period / solve in random order, each with its own options;
-    the scripts of the periods contain faults, so statuses '.', 'F', 'E', 'S' all occur and get overwritten by later calls."""
-    n = rng.choice([2, 3, 4])
-    st = rng.choice(HIST_TYPES)
-    c = sc.solve_case(span_type=st, n=n, nvars=2, check=(0,), endo=(0,), lags=rng.choice([0, 0, 0, 1]), leads=rng.choice([0, 0, 0, 1]))
-    c['kind'] = 'hist'
-    del c['opts'], c['start'], c['end'], c['entry']
-    scripts = {}
-    for p in range(n):
-        r = rng.random()
-        v = 1.5 + p
-        vals = [1.0 + p, v, v, v]
-        if r < 0.25:
-            vals[rng.randrange(3)] = rng.choice(list(BADV.values()))
-        elif r < 0.35:
-            vals = [1.0, 2.0, 1.0, 2.0]
-        passes = sc.settle_passes(0, vals)
-        if 0.35 <= r < 0.45:
-            passes[rng.randrange(3)] = [['raise', rng.choice([10, 12])]]
-        elif 0.45 <= r < 0.55:
-            passes[rng.randrange(3)] = [['warnset', 0, lib.fhex(rng.choice([float('inf'), 3.0]))]]
-        scripts[str(p)] = {'passes': passes}
-        if rng.random() < 0.05:
-            scripts[str(p)]['after' if rng.random() < 0.5 else 'before'] = [['raise', 13]]
-    c['scripts'] = scripts
-    specs = sc.label_specs(st, n)
-    calls = []
-    for _ in range(rng.randint(2, 6)):
-        mx = rng.choice([1, 2, 3, 4, 5])
-        o = dict(min_iter=rng.choice([0, 0, 1, 2, mx]) if rng.random() < 0.9 else mx + 1, max_iter=mx, tol=lib.fhex(1e-10), offset=rng.choice([0, 0, 0, 0, -1, 1]),
-                 failures=rng.choice(['raise', 'ignore']), errors=rng.choice(ERR5[:4] + ['raise', 'skip']) if rng.random() < 0.95 else 'bogus',
-                 catch_first_error=rng.random() < 0.5)
-        o['min_iter'] = min(o['min_iter'], mx + 1)
-        api = rng.choice(['solve_t', 'solve_t', 'solve_period', 'solve'])
-        if api == 'solve_t':
-            p = rng.randrange(n)
-            calls.append({'api': api, 't': p if rng.random() < 0.7 else p - n, 'opts': o})
-        elif api == 'solve_period':
-            calls.append({'api': api, 'start': rng.choice(specs[1:]), 'opts': o})
-        else:
-            calls.append({'api': api, 'start': rng.choice(specs), 'end': rng.choice(specs), 'opts': o})
-    c['calls'] = calls
-    return c
+    return sc.hist_case(rng, errs=('raise', 'raise', 'skip', 'skip', 'ignore', 'replace'))
 
 
 def gen(rng, tier):
@@ -411,16 +366,20 @@ def oracle_hist(case, obs):
     def bad(sig, what):
         fails.append({'sig': 'C06|history|' + sig, 'what': what})
     n = case['n']
-    modes = {c['opts']['errors'] for c in case['calls']}
-    if len(obs['status']) != n or len(obs['iters']) != n:
+    modes = {c['opts']['errors'] for c in case['calls'] if 'opts' in c}
+    reindexed = any(c['api'] == 'reindex' for c in case['calls'])
+    if len(obs['status']) != len(obs['iters']) or (not reindexed and len(obs['status']) != n):
         bad('length', 'status / iterations series changed length: %d / %d for %d periods' % (len(obs['status']), len(obs['iters']), n))
     for k, snap in enumerate(obs['snaps']):
         prev = case['status'] if k == 0 else obs['snaps'][k - 1]
+        n = len(snap)
         for q, x in enumerate(snap):
             if x not in ('-', '.', 'F', 'E', 'S'):
                 bad('alphabet', 'call %d left status %r at period %d' % (k, x, q))
+            elif case['calls'][k]['api'] == 'reindex':
+                continue            # periods moved; only the alphabet is constrained
             elif x != prev[q]:
-                e = case['calls'][k]['opts']['errors']
+                e = case['calls'][k].get('opts', {}).get('errors')
                 if (x == 'S' and e != 'skip') or (x == 'E' and e != 'raise') or x == '-':
                     bad('status-vs-policy', 'call %d (errors=%r) wrote status %r at period %d' % (k, e, x, q))
         call, out = case['calls'][k], obs['outs'][k]
@@ -434,8 +393,13 @@ def oracle_hist(case, obs):
                 p = call['t'] if call['t'] >= 0 else call['t'] + n
                 if (out[1] is True) != (snap[p] == '.'):
                     bad('flag-iff-dot', 'call %d: solve_t returned %s with status %r' % (k, out[1], snap[p]))
+    # the single-call clauses of the statement at EVERY solve_t / solve_period step of the history (state before the step = start state)
+    for k, c1, o1 in sc.hist_steps_as_solve_t(case, obs):
+        for f in oracle(c1, o1):
+            fails.append({'sig': f['sig'], 'what': 'step %d of a history (%s on a %s span, after %s): %s'
+                          % (k, case['calls'][k]['api'], case['span_type'], [x['api'] for x in case['calls'][:k]], f['what'])})
     for q, x in enumerate(obs['status']):
-        if x != case['status'][q] and ((x == 'S' and 'skip' not in modes) or (x == 'E' and 'raise' not in modes)):
+        if x not in case['status'] and ((x == 'S' and 'skip' not in modes) or (x == 'E' and 'raise' not in modes)):
             bad('status-vs-policy', 'period %d ends %r although no call of the history had the policy that writes it (%s)' % (q, x, sorted(modes)))
     return fails
 
